@@ -54,6 +54,10 @@ THEOREMS = [
     "C08_recovery_only_at_roots",
     "C08_idle_parent_no_file",
     "C08_parent_idle_variant_witness",
+    "C08_restore_links_writes_nothing",
+    "C08_restore_links_same_links",
+    "C08_restore_links_setter_partial",
+    "C08_restore_links_setter_witness",
 ]
 RULE = (
     "real workflows of term nodes (and generic macros, nested up to 2 deep, built from a level description) in a "
@@ -190,9 +194,37 @@ def leaves_of(case):
     return res
 
 
+def preset_live(case):
+    """the directly assigned value-linked inputs whose value survives the runs: nothing ever assigns the macro input
+    above them (it is unconnected, and so is everything its own link chain leads up to)"""
+    lvs = levels_of(case)
+
+    def pushed(lv, k):
+        if lv["parent"] is None:
+            return False
+        plv, m = lvs[lv["parent"][0]], lv["parent"][1]
+        srcs = plv["spec"]["slots"][str(m)][k]
+        res = False
+        for s_ in srcs:
+            if s_ in ("A", "B") and (m, k, 0 if s_ == "A" else 1) in plv["vlink"]:
+                res = res or pushed(plv, 0 if s_ == "A" else 1)
+            else:
+                res = True
+        return res
+
+    live = set()
+    for lv in lvs:
+        for g, si, k in lv["vlink"]:
+            if [g, si] in [list(x) for x in case.get("preset", [])] and not pushed(lv, k):
+                live.add((g, si))
+    return live
+
+
 def reference(case):
-    """plain python composition of the whole tree (newest connection per slot, defaults 'd', changed own inputs 'e')"""
+    """plain python composition of the whole tree (newest connection per slot, defaults 'd', changed own inputs 'e',
+    directly assigned linked inputs 'p' where nothing overwrites them)"""
     dirty = set(case.get("dirty", []))
+    live = preset_live(case)
     out = {}
 
     def level(spec, env):
@@ -208,8 +240,10 @@ def reference(case):
                 return memo[g]
             nd = next(x for x in spec["nodes"] if x["gid"] == g)
             args = []
-            for srcs in spec["slots"][str(g)]:
-                if srcs:
+            for si, srcs in enumerate(spec["slots"][str(g)]):
+                if (g, si) in live:
+                    args.append("p")
+                elif srcs:
                     args.append(src_val(srcs[-1]))
                 else:
                     args.append("e" if (g in dirty and nd["kind"] == "term") else "d")
@@ -260,11 +294,17 @@ def _gid_of_label(lv, label):
     return -1
 
 
+def _ts(v):
+    from .execsim import term_str
+
+    return term_str(v).replace("'e'", "e").replace("'p'", "p")
+
+
 def _out_value(n):
     from .execsim import term_str
 
     chans = list(n.outputs)
-    return term_str(chans[0].value).replace("'e'", "e") if chans else "ND"
+    return _ts(chans[0].value) if chans else "ND"
 
 
 def _snapshot(lvs, node):
@@ -284,9 +324,10 @@ def _snapshot(lvs, node):
                 "out": "*" if isinstance(n, Composite) else _out_value(n),
                 "cache": 0 if ci is None else 1,
                 "cache_val": None if ci is None or isinstance(n, Composite) else sorted(
-                    (k, term_str(v).replace("'e'", "e")) for k, v in ci.items()),
+                    (k, _ts(v)) for k, v in ci.items()),
                 "recv": recv,
                 "conn": {lab: [c.owner.label for c in ch.connections] for lab, ch in n.inputs.items()},
+                "in": {lab: _ts(ch.value) for lab, ch in n.inputs.items()},
                 "comp": isinstance(n, Composite),
                 "has_out": _out_value(n) != "ND",
             }
@@ -504,6 +545,12 @@ def _build(case):
                 roots.append(g)
         order = case.get("force_starters") or sorted(roots)
         wf.starting_nodes = [made[g] for g in order if g in roots] + [made[g] for g in roots if g not in order]
+    if case.get("preset"):
+        # part of the graph "as the user made it": inputs that are value-linked to a macro argument, assigned DIRECTLY
+        # on the child (a leaf or a nested macro), so that macro input and child input differ
+        _lvs, node, _comp = _index(wf, case)
+        for g, si in case["preset"]:
+            node[g].inputs["abc"[si]].value = "p"
     return wf
 
 
@@ -929,6 +976,8 @@ def run_impl(case):
         "calls_in_resume": len(calls2), "fresh_interpreter": int(bool(case.get("fresh"))),
         "second_failure": int(b3 is not None), "cloudpickle_only_output": int(bool(case.get("cp"))),
         "several_checkpoints": int(bool(case.get("ckpt_more"))),
+        "linked_input_set_directly": int(bool(case.get("preset"))),
+        "linked_input_differs_from_macro_input": int(bool(preset_live(case))),
         "interrupt": int("kbd" in (case.get("kinds") or {}).values() or "kbd" in (case.get("kinds2") or {}).values()),
         "two_suffixes_seen": int(any(f.endswith(".cpckl") for f in cut["files"] + b["files_after"])),
     }
@@ -1395,6 +1444,8 @@ def model_input(case, impl):
             lines.append(f"ui {u} {k}")
         for g, si, k in lv["vlink"]:
             lines.append(f"vlink {g} {si} {k}")
+            if [g, si] in [list(x) for x in case.get("preset", [])]:
+                lines.append(f"preset {g} {si}")
         if "out" in lv["spec"]:
             lines.append(f"outnode {lv['spec']['out']}")
         lines.append("rank " + " ".join(map(str, _rank(lv, n))))
@@ -1542,7 +1593,7 @@ def oracle(case, impl):
         w = loaded[g]
         # the cache of a composite is dropped by every load, the cache of a node that is still running does
         # not belong to any outputs yet: neither is part of "the graph as it stood"
-        for key in ("flags", "out", "recv", "conn") + (() if v["comp"] or v["flags"] == "R" else ("cache", "cache_val")):
+        for key in ("flags", "out", "recv", "conn", "in") + (() if v["comp"] or v["flags"] == "R" else ("cache", "cache_val")):
             if v[key] != w[key]:
                 fails.append({"clause": "loaded-state-differs", "detail": f"node {g} {key}: live {v[key]} loaded {w[key]}",
                               "signature": sig("loaded-state", field=key)})
@@ -1601,7 +1652,7 @@ def oracle(case, impl):
             return fails
         for g, v in r["final"].items():
             w = b3["loaded"][g]
-            for key in ("flags", "out", "recv", "conn") + (() if v["comp"] or v["flags"] == "R" else ("cache", "cache_val")):
+            for key in ("flags", "out", "recv", "conn", "in") + (() if v["comp"] or v["flags"] == "R" else ("cache", "cache_val")):
                 if v[key] != w[key]:
                     fails.append({"clause": "loaded-state-differs",
                                   "detail": f"second failure, node {g} {key}: live {v[key]} loaded {w[key]}",
@@ -1677,6 +1728,9 @@ def _gen_level(rng, term_ids, alloc, n_leaf, depth, is_macro, p_edge=0.55):
         for key in ("A", "B"):
             uses = 1 if rng.random() < 0.5 else 2
             free = [(g, si) for g in terms for si in range(3) if not slots[str(g)][si]]
+            # a macro argument may also feed the macro nested in this level: value links then chain down the levels
+            free += [(nd["gid"], si) for nd in nodes_ if nd["kind"] == "macro" for si in range(2)
+                     if not slots[str(nd["gid"])][si]]
             rng.shuffle(free)
             if len(free) < uses:
                 uses = len(free)
@@ -1786,6 +1840,16 @@ def gen_case(rng, tier, force_kind=None, nested=None):
         ref = reference(case)
         if not all(a in ref[k[1]] for k, args in ref.items() if isinstance(k, tuple) for a in args):
             case["dirty"] = []
+    # the user assigned some value-linked inputs DIRECTLY on the child (leaf or nested macro, any depth) before the
+    # first run: macro input and child input differ at the cut
+    case["preset"] = []
+    if is_nested and rng.random() < 0.5:
+        cand = [[g, si] for lv in levels_of(case) for (g, si, _k) in lv["vlink"]
+                if lv["spec"]["slots"][str(g)][si] in (["A"], ["B"])]
+        live = [c for c in cand if tuple(c) in preset_live({**case, "preset": cand})]
+        pool = live if live and rng.random() < 0.8 else cand
+        if pool:
+            case["preset"] = sorted(rng.sample(pool, min(len(pool), rng.randint(1, 2))))
     case["force_starters"] = []
     roots = [g for g in top_leaves if not any(top["slots"][str(g)])]
     if kind == "recovery" and not is_nested and len(roots) >= 2 and rng.random() < 0.4:
@@ -1865,7 +1929,7 @@ def gen_idle_case(rng, tier):
     """a random tree and a short history of failures outside / inside runs of the outermost graph"""
     base = gen_case(rng, tier, force_kind="recovery", nested=rng.random() < 0.7)
     case = {**base, "kind": "idle", "fails": [], "kinds": {}, "exec": [], "exec2": [], "dirty": [], "cp": [],
-            "fails2": [], "kinds2": {}, "force_starters": [], "suppress": False, "flow": False, "ckpt": None,
+            "fails2": [], "kinds2": {}, "force_starters": [], "suppress": False, "flow": False, "ckpt": None, "preset": [],
             "ckpt_more": [], "choices": [], "choices2": [], "choices3": []}
     par = _owners(case)
     leaves = leaves_of(case)
@@ -1992,6 +2056,23 @@ def corpus():
     yield {**base, "kind": "recovery", "fails": [6], "kinds": {"6": "kbd"}}
     yield {**base, "kind": "checkpoint", "fails": [], "ckpt": 5}
     yield {**base, "kind": "recovery", "fails": [2], "dirty": [5]}
+    # value-linked inputs assigned directly on the child (Props/C08: C08_restore_links_writes_nothing,
+    # C08_restore_links_setter_witness): the arguments of macro 7 stay at their defaults, its argument A is linked to
+    # argument A of the nested macro 8, that one to input a of leaf 5; the user sets 5.a (resp. 8.a, cascading onto
+    # 5.a) directly; macro 7 completes, a later node fails
+    l_in2 = {"nodes": [{"gid": 5, "kind": "term"}, {"gid": 6, "kind": "term"}],
+             "slots": {"5": [["A"], [], []], "6": [[5], ["B"], []]}, "ui": {"A": 12, "B": 13}, "out": 6}
+    l_in1 = {"nodes": [{"gid": 3, "kind": "term"}, {"gid": 8, "kind": "macro", "inner": l_in2}, {"gid": 4, "kind": "term"}],
+             "slots": {"3": [["B"], [], []], "8": [["A"], [3]], "4": [[8], [], []]}, "ui": {"A": 10, "B": 11}, "out": 4}
+    l_top = {"nodes": [{"gid": 0, "kind": "term"}, {"gid": 7, "kind": "macro", "inner": l_in1}, {"gid": 1, "kind": "term"},
+                       {"gid": 2, "kind": "term"}],
+             "slots": {"0": [[], [], []], "7": [[], [0]], "1": [[7], [], []], "2": [[1], [0], []]}}
+    linked = {"top": l_top, "N": 14, "exec": [], "exec2": [], "dirty": [], "mode": "ctl", "choices": [], "choices2": [],
+              "kind": "recovery", "fails": [2]}
+    yield {**linked, "preset": [[5, 0]]}
+    yield {**linked, "preset": [[8, 0]]}
+    yield {**linked, "preset": [[5, 0], [3, 0]], "fails": [1]}  # 3.a sits under a connected argument: overwritten by the run
+    yield {**linked, "preset": [[5, 0]], "kind": "checkpoint", "fails": [], "ckpt": 1}
     # failures with an idle parent (Props/C08: C08_idle_parent_no_file, C08_parent_idle_variant_witness): a child two
     # macros deep run by hand; a macro run by hand whose child raises; a pull whose upstream macro fails (the macro's
     # own parent idle / the outermost graph itself driving the upstream run); a node injected by an operator on an
@@ -2050,6 +2131,8 @@ def shrink_candidates(case):
         yield {**case, "ckpt_more": []}
     if case.get("cp"):
         yield {**case, "cp": []}
+    for x in case.get("preset", []):
+        yield {**case, "preset": [y for y in case["preset"] if y != x]}
     if any(v != "exc" for v in (case.get("kinds") or {}).values()):
         yield {**case, "kinds": {k: "exc" for k in case["kinds"]}}
     for g in case.get("exec", []):
